@@ -208,6 +208,9 @@ def build_text(case):
                 outs = outs + [outs[0]]
             if not outs:
                 lines.append("N%d = Copy(InFieldName = Leaf)" % i)
+            elif case["order"] % 5 == 3:
+                # report commands referring to one another
+                lines.append("N%d = PrintVars(InFieldNames = [%s], OutFileName = \"pv%d.txt\")" % (i, ", ".join(outs), i))
             elif len(outs) == 1 and real in ("direct", "mixed"):
                 lines.append("N%d = Copy(InFieldName = %s)" % (i, outs[0]))
             elif len(outs) == 2 and real in ("direct", "mixed"):
@@ -215,6 +218,9 @@ def build_text(case):
             else:
                 lines.append("N%d = %s(InFieldNames = [%s])" % (i, rng.choice(["Sum", "Maximum", "Mean"]), ", ".join(outs)))
         libs = arr.CSV_LIBS
+    if case["order"] % 3 == 0:
+        # metadata written in front of the other arguments (argument order is free)
+        lines = [ln.replace("(", "(Metadata = [DisplayName: Loop, Note: \"x, y\"], ", 1) if "(" in ln and not ln.startswith("Leaf") and "NoOut" not in ln else ln for ln in lines]
     if case.get("sorted_order"):
         lines.sort(key=lambda ln: (not ln.startswith("Leaf"), int(ln.split(" ")[0][1:]) if ln[0] == "N" else -1))   # no forward references where avoidable
     else:
@@ -346,7 +352,7 @@ def run_case(ctx, case):
         ctx.fail("returned-normally:%s%s%s" % ("nothing-ran" if not executed else "partly-ran", ":cycle-closed-after-a-failed-run" if late else "", ":" + pre if pre else ""), {"late_command": late, "text": text, "executed": executed, "unfinished": unfinished, "structure": skey, "via": rkey})
         return
     name = type(err).__name__
-    if name == "RecursiveModelStructure" and case["lib"] == "eems" and not case.get("api") and not late and case["order"] % 4 == 0:
+    if name == "RecursiveModelStructure" and case["lib"] == "eems" and not case.get("api") and not late and case["order"] % 4 == 0 and "PrintVars(" not in text:
         # the same file, with a writer at its end, through the command-line tool: the recursive-model report, not a crash
         from click.testing import CliRunner
         from mpilot.cli.mpilot import main
